@@ -488,6 +488,8 @@ def all_slices(n):
 
 def random_slice(rng, n):
     vals, steps = slice_space(n)
+    if rng.random() < 0.03:
+        return pk_slice(rng.choice(vals), rng.choice(vals), 0)      # malformed: ValueError
     return pk_slice(rng.choice(vals), rng.choice(vals), rng.choice(steps))
 
 
@@ -850,24 +852,35 @@ def api_frame_hier(ctx):
 
 
 def api_frame_boollist(ctx):
-    '''A Python list of bools as the COLUMN key (finding C04-boollist-column-key): spec = the mask.'''
-    rng = ctx.rng
-    for fr, frl, fdesc in frames(ctx, ['iii', 'ifs'], [2], layouts=ctx.n(2, 4)):
-        nc = fr.shape[1]
-        for m in itertools.product((False, True), repeat=nc):
-            obs = observe(lambda: fr.iloc[:, list(m)])
-            pk = pk_mask(m)
-            desc = dict(fdesc, call='frame.iloc[:, ck]', ck=[bool(x) for x in m], ck_kind='python list of bool', observed=obs[:400])
-            ctx.count('route:iloc', 'ck:boollist')
-            yield Case('api:frame.iloc-boollist', desc, s=f'let F := {frl} in eq_S 0 (Sx F CAll {pk.coq}) {obs}',
-                       tags={'route': 'iloc', 'ckind': 'boollist', 'finding': 'C04-boollist-column-key'}, nontrivial=any(m) and not all(m))
-            # as the ROW key the same list is a mask (no finding)
-        for m in itertools.product((False, True), repeat=2):
-            obs = observe(lambda: fr.iloc[list(m)])
-            pk = pk_mask(m)
-            desc = dict(fdesc, call='frame.iloc[rk]', rk=[bool(x) for x in m], rk_kind='python list of bool', observed=obs[:400])
-            yield Case('api:frame.iloc-boollist', desc, s=f'let F := {frl} in eq_S 0 (Sx F {pk.coq} CAll) {obs}',
-                       tags={'route': 'iloc', 'rkind': 'boollist'}, nontrivial=any(m) and not all(m))
+    """A Python LIST of bools as a positional key. NumPy and the indices read it as a mask; the block walk reads a column key as
+    the integers 1 / 0 (finding C04-boollist-column-key) and does not see a row key selecting ONE row as single_row (finding
+    C04-boollist-row-key-one-true). Specification: the mask."""
+    for pattern, lays in (('iii', [((3, True),), ((1, False), (2, True)), ((1, False), (1, True), (1, False))]),
+                          ('ifs', [((1, False), (1, True), (1, False))])):
+        for layout in lays:
+            fr = make_frame(pattern, layout, 2)
+            frl = frame_lit(fr)
+            fdesc = {'columns_dtypes': pattern, 'layout': zoo.layout_str(layout), 'rows': 2, 'index': 'str', 'columns': 'str',
+                     'build': 'sfv.props.c04.make_frame(columns_dtypes, layout, rows)'}
+            nc = fr.shape[1]
+            for m in itertools.product((False, True), repeat=nc):
+                obs = observe(lambda: fr.iloc[:, list(m)])
+                pk = pk_mask(m)
+                desc = dict(fdesc, call='frame.iloc[:, ck]', ck=[bool(x) for x in m], ck_kind='python list of bool', observed=obs[:400])
+                ctx.count('route:iloc', 'ck:boollist')
+                yield Case('api:frame.iloc-boollist', desc, s=f'let F := {frl} in eq_S 0 (Sx F CAll {pk.coq}) {obs}',
+                           tags={'route': 'iloc', 'ckind': 'boollist', 'finding': 'C04-boollist-column-key'}, nontrivial=any(m) and not all(m))
+            wide2d = any(is2d and w > 1 for w, is2d in layout)
+            for m in itertools.product((False, True), repeat=2):
+                obs = observe(lambda: fr.iloc[list(m)])
+                pk = pk_mask(m)
+                desc = dict(fdesc, call='frame.iloc[rk]', rk=[bool(x) for x in m], rk_kind='python list of bool', observed=obs[:400])
+                tags = {'route': 'iloc', 'rkind': 'boollist'}
+                if sum(m) == 1 and wide2d:
+                    tags['finding'] = 'C04-boollist-row-key-one-true'
+                ctx.count('route:iloc', 'rk:boollist')
+                yield Case('api:frame.iloc-boollist', desc, s=f'let F := {frl} in eq_S 0 (Sx F {pk.coq} CAll) {obs}',
+                           tags=tags, nontrivial=any(m) and not all(m))
 
 
 def api_frame_tuples(ctx):
@@ -1179,6 +1192,49 @@ def kernel_key_to_block_slices(ctx):
                            tags={'kernel': 'key_to_block_slices'}, nontrivial=k.kind != 'all', key=f'k2bs:{zoo.layout_str(layout)}:{k.kind}:{k.desc}')
 
 
+def kernel_extract_array_repeats(ctx):
+    """TypeBlocks._extract_array(column_key=list) where repeats are allowed (no index to keep unique): internal clients
+    (sort_values / iter_group / set_index_hierarchy with a repeated label) reach it. Zig-zag repeats inside one 2-D block are
+    the known finding C04-repeated-column-key-zigzag."""
+    from static_frame.core.type_blocks import TypeBlocks
+    rng = ctx.rng
+    m, rows = 4, 2
+    lays = list(zoo.layouts_for([np.dtype(np.int64)] * m))
+    if ctx.tier == 'quick':
+        lays = rng.sample(lays, 6) + [((4, True),)]
+    for layout in lays:
+        cols = [np.array([10 * j + i for i in range(rows)], dtype=np.int64) for j in range(m)]
+        tb = TypeBlocks.from_blocks(zoo.blocks_from_columns(cols, layout))
+        blk = [bi for bi, (w, _) in enumerate(layout) for _ in range(w)]      # block of each column position
+        tl = lit.lst([f'(mk_block (DInt true 8) {lit.b(not is2d)} ' +
+                      lit.lst([lit.lst([lit.z(v) for v in cols[sum(w_ for w_, _ in layout[:bi]) + j]]) for j in range(w)]) + ')'
+                      for bi, (w, is2d) in enumerate(layout)])
+        for k in (1, 2, 3):
+            for key in itertools.product(range(m), repeat=k):
+                key = list(key)
+
+                def run():
+                    a = tb._extract_array(column_key=key)
+                    if a.ndim != 2:
+                        raise AssertionError('expected a 2-D array')
+                    return [a[:, j].tolist() for j in range(a.shape[1])]
+                obs, _ = lit.res(run, lambda cs: lit.lst([lit.lst([lit.z(v) for v in c]) for c in cs]))
+                zigzag = any(blk[key[i]] == blk[key[i + 1]] == blk[key[i + 2]] and key[i + 2] == key[i] and abs(key[i + 1] - key[i]) == 1
+                             for i in range(len(key) - 2))
+                tags = {'kernel': 'extract_array', 'repeats': len(set(key)) < len(key)}
+                if zigzag:
+                    tags['finding'] = 'C04-repeated-column-key-zigzag'
+                kl = '(CList ' + lit.lst([lit.z(i) for i in key]) + ')'
+                ctx.count('kernel:extract_array', 'repeats:%s' % tags['repeats'])
+                eqb = 'res_eqb (list_eqb (list_eqb Z.eqb))'
+                yield Case('kernel:extract_array-repeats',
+                           {'call': 'TypeBlocks._extract_array(column_key=key)', 'layout': zoo.layout_str(layout), 'key': key, 'observed': obs[:200],
+                            'public_reach': 'Frame.sort_values / iter_group_items / set_index_hierarchy with these column positions'},
+                           m=f'{eqb} (res_map (fun t => map snd (flatten t)) (@M_select_columns Z {tl} {kl})) {obs}',
+                           s=f'{eqb} (res_map (map snd) (@S_select_columns Z (flatten {tl}) {kl})) {obs}',
+                           tags=tags, nontrivial=True, key=f'xa:{zoo.layout_str(layout)}:{key}')
+
+
 def kernel_inclusive_slice(ctx):
     from static_frame.core.util import slice_to_inclusive_slice
     R = 3 if ctx.tier == 'quick' else 6
@@ -1209,3 +1265,4 @@ def cases(ctx):
     yield from kernel_contiguous_pairs(ctx)
     yield from kernel_key_to_block_slices(ctx)
     yield from kernel_inclusive_slice(ctx)
+    yield from kernel_extract_array_repeats(ctx)
